@@ -133,6 +133,28 @@ const coldOffset = 2000000
 func genColdEpisode(seed uint64, e int) *Episode {
 	r := core.Derive(seed, "consim", "cold-episode", e)
 	ep := &Episode{FixSeed: core.Derive(seed, "consim", "cold-fix").Uint64(), EntSeed: r.Uint64()}
+	if r.Chance(0.35) {
+		// focused: a few goroutines all in the SAME function on different inputs,
+		// one of them coming back to the first input later. Few statements are
+		// executed, so change points aimed at executed statements cover them well,
+		// and a stale or torn entry left behind is looked up again within the run.
+		k := coldKinds[r.Intn(len(coldKinds))]
+		for k == "xnew" || k == "xnewext" {
+			k = coldKinds[r.Intn(len(coldKinds))]
+		}
+		a0, a1, a2 := r.Intn(64), r.Intn(64), r.Intn(64)
+		b := r.Intn(64)
+		ep.Tasks = [][]Call{
+			{{K: k, A: a0, B: b}, {K: k, A: a0, B: b}},
+			{{K: k, A: a1, B: b}},
+			{{K: k, A: a2, B: b}, {K: k, A: a0, B: b}},
+		}
+		if r.Chance(0.5) {
+			ep.Tasks = ep.Tasks[:2]
+			ep.Tasks[1] = append(ep.Tasks[1], Call{K: k, A: a0, B: b})
+		}
+		return ep
+	}
 	n := r.Range(2, 5)
 	var enabled []string
 	for _, k := range coldKinds {
@@ -191,8 +213,14 @@ func genColdPlan(r *core.Rand, ep *Episode, st *Sites) *simsched.Plan {
 				s = gw[r.Intn(len(gw))]
 			}
 			occ := uint32(1 + r.Intn(3))
+			only := -1
+			if r.Chance(0.5) { // one task only: it is overtaken there by the others, whole calls at a time
+				only = r.Intn(n)
+			}
 			for t := 0; t < n; t++ {
-				p.Points = append(p.Points, simsched.ChangePoint{Task: t, Site: s, Occ: occ})
+				if only < 0 || only == t {
+					p.Points = append(p.Points, simsched.ChangePoint{Task: t, Site: s, Occ: occ})
+				}
 			}
 		}
 	case 1:
@@ -211,6 +239,7 @@ func genColdPlan(r *core.Rand, ep *Episode, st *Sites) *simsched.Plan {
 
 type coldOut struct {
 	Results  [][]string     `json:"results"`
+	Counts   [][][2]uint32  `json:"counts,omitempty"` // reference run: per task (site, occurrences) of executed statements
 	Alone    [][]string     `json:"alone,omitempty"` // per call: result in a process that ran only that call ("" = not taken)
 	Plan     *simsched.Plan `json:"plan,omitempty"`
 	Stats    simsched.Stats `json:"stats"`
@@ -247,8 +276,20 @@ func coldRef(epJSON, fixPath, sitesPath string) {
 	for i := range order {
 		order[i] = i
 	}
-	o := runOnceCold(f, &ep, seqPlan(n, order), len(st.Sites))
-	json.NewEncoder(os.Stdout).Encode(&coldOut{Results: o.Results, Stats: o.Stats, RunCount: 1})
+	o := runOnce(f, &ep, seqPlan(n, order), len(st.Sites), true)
+	// which statements each task executed, how often: lets the parent aim the
+	// schedule of the cold run at statements that will actually be reached
+	var sparse [][][2]uint32
+	for _, row := range o.Counts {
+		var r [][2]uint32
+		for s, c := range row {
+			if c > 0 {
+				r = append(r, [2]uint32{uint32(s), c})
+			}
+		}
+		sparse = append(sparse, r)
+	}
+	json.NewEncoder(os.Stdout).Encode(&coldOut{Results: o.Results, Stats: o.Stats, RunCount: 1, Counts: sparse})
 }
 
 // runOnceCold: fixtures loaded as data carry no key objects (f.Priv, f.Dil are nil).
